@@ -4,7 +4,7 @@ Proof: coq/theories/C14 (rays from two points, all pairs, spherical-cap rays, ti
 counts, tilts, limits and draws U, V in [0, 1]).
 Tie to /repo, B1: the constructors and generators of both APIs are cut from the current sources, executed
 symbolically with symbolic random draws (tracer/recipes/c14.py) and proved equal to the model for all reals
-(coq/tie/C14_Tie{A,B1,B2,C1,C2}.v), where the property's clauses are restated on the traced definitions; the translator
+(coq/tie/C14_Tie{A,B1,B2,C1,C2,C3}.v), where the property's clauses are restated on the traced definitions; the translator
 is validated numerically on every run.  B2: the index order of the lattices / all-pairs / light-to-ray
 assignment and the rational axis coordinates are evaluated inside Coq (vm_compute) and compared with the
 implementation's rows for many counts.  Direct oracles state every clause on the real implementation.
@@ -17,10 +17,10 @@ from tracer.recipes import c14 as recipe
 from tracer import emit
 
 PROPS = ['C14_two_points_unit', 'C14_two_points_reach', 'C14_two_points_reach_unique', 'C14_zero_length_iff',
-         'C14_all_pairs_count', 'C14_all_pairs_nth', 'C14_all_pairs_sound',
+         'C14_all_pairs_count', 'C14_all_pairs_nth', 'C14_all_pairs_sound', 'C14_batch_count', 'C14_batch_sound',
          'C14_cap_within_limit', 'C14_cap_c2_refuted', 'C14_cap_c2_angle_refuted', 'C14_cap_c2_partial', 'C14_cap_unit',
          'C14_tilt_preserves_angle', 'C14_lum_within_limit', 'C14_lum_axis_unit', 'C14_grid_lum_count', 'C14_grid_lum_sound',
-         'C14_placed_rel', 'C14_placed_dist', 'C14_sphere_on', 'C14_circle_in', 'C14_circle_rim', 'C14_grid_in', 'C14_grid_extent',
+         'C14_placed_rel', 'C14_placed_dist', 'C14_sphere_on', 'C14_circle_in', 'C14_circle_rim', 'C14_circle_uniform_in', 'C14_count_circle_uniform', 'C14_circle_random_in', 'C14_count_circle_random', 'C14_grid_in', 'C14_grid_extent',
          'C14_grid_single_refuted', 'C14_box_in', 'C14_count_grid', 'C14_count_circle', 'C14_count_sphere', 'C14_count_box',
          'C14_lattice2_nth', 'C14_lattice3_nth', 'C14_grid_coordQ_R', 'C14_box_coordQ_R', 'C14_closeQ_sound', 'C14_instance']
 PRE = ('From Coq Require Import List QArith. Import ListNotations.\nFrom OdakV Require Import C14.Model.\nOpen Scope Q_scope.')
@@ -64,14 +64,19 @@ def oracle_two_points(inp):
     """rays from point pairs: unit cosines, origin = start, end reached after the distance; NaN flag iff zero length"""
     lr, nr, nt, _ = api()
     p0, p1, which = np.array(inp['p0'], float), np.array(inp['p1'], float), inp['api']
-    m = len(p0)
+    m = max(len(p0), len(p1))
     if which == 'torch':
         ray = to_np(lr.create_ray_from_two_points(torch.tensor(p0, dtype=torch.float32), torch.tensor(p1, dtype=torch.float32)))
         p0, p1 = p0.astype(np.float32).astype(float), p1.astype(np.float32).astype(float); tol = TOL32
     elif which == 'numpy':
         ray = to_np(nr.create_ray_from_two_points(p0[0].tolist(), p1[0].tolist()) if m == 1 else nr.create_ray_from_two_points(p0, p1)); tol = TOL64
     else:
-        ray = to_np(nt.batch_of_rays(p0.copy(), p1.copy())); tol = TOL64
+        # batch_of_rays: equal counts, or ONE entry / ONE exit point shared by all rays (given as [3] or [1 x 3])
+        a0 = p0[0].copy() if len(p0) == 1 and inp.get('flat') else p0.copy()
+        a1 = p1[0].copy() if len(p1) == 1 and inp.get('flat') else p1.copy()
+        ray = to_np(nt.batch_of_rays(a0, a1)); tol = TOL64
+        if len(p0) == 1: p0 = np.repeat(p0, m, axis=0)
+        if len(p1) == 1: p1 = np.repeat(p1, m, axis=0)
     out = [('ray_count', ray.reshape(-1, 2, 3).shape[0] == m, m, list(ray.shape))]
     if not out[0][1]:
         return out
@@ -199,9 +204,13 @@ def oracle_grid(inp):
     ok = shape_in(q, [sx / 2, sy / 2, 0], t)
     out.append(('in_tilted_rectangle', all(ok[:2]), '|u| <= %r, |v| <= %r' % (sx / 2, sy / 2), np.max(np.abs(q), axis=0).tolist()))
     out.append(('in_tilted_plane', ok[2], 'w = 0', float(np.max(np.abs(q[:, 2])))))
-    if n0 >= 2 and n1 >= 2:
-        ext = [float(q[:, 0].min()), float(q[:, 0].max()), float(q[:, 1].min()), float(q[:, 1].max())]
-        want = [-sx / 2, sx / 2, -sy / 2, sy / 2]
+    # an axis with >= 2 points spans exactly the requested size about the centre (a single row / column cannot span a size:
+    # for it only membership above is required, wherever the implementation puts it)
+    ext, want = [], []
+    for ax, (nn, ss) in enumerate(((n0, sx), (n1, sy))):
+        if nn >= 2:
+            ext += [float(q[:, ax].min()), float(q[:, ax].max())]; want += [-ss / 2, ss / 2]
+    if ext:
         out.append(('spans_requested_size_about_centre', max(abs(a - b) for a, b in zip(ext, want)) <= t, want, ext))
     return out
 
@@ -231,10 +240,11 @@ def oracle_circle(inp):
         np.random.seed(inp['seed'])
     pts = to_np(getattr(nt, fn)(no=list(n), radius=rad, center=list(inp['centre']), angles=list(inp['angles'])))
     out = []
-    if fn == 'circular_sample':
-        out.append(('requested_count', list(pts.shape) == [n[0] * n[1], 3], [n[0] * n[1], 3], list(pts.shape)))
-        if not out[0][1]:
-            return out
+    rings = [int(n[1] * i / n[0]) for i in range(n[0])]            # circular_uniform_sample: ring i carries floor(no1 * i / no0) points (ring radii: B2 only)
+    want = {'circular_sample': n[0] * n[1], 'circular_uniform_random_sample': n[0] * n[1], 'circular_uniform_sample': sum(rings)}[fn]
+    out.append(('requested_count', list(pts.shape) == [want, 3], [want, 3], list(pts.shape)))
+    if not out[0][1]:
+        return out
     if pts.size == 0:
         return out
     sc = scale_of(inp['centre'], [rad]); t = 100 * TOL64 * sc
@@ -279,7 +289,7 @@ def apply_oracle(ctx, name, inp):
     try:
         res = ORACLES[name](inp)
     except Exception as e:
-        res = [('no_exception', False, 'a result', repr(e))]
+        res = [('no_exception[%s]' % type(e).__name__, False, 'a result', repr(e))]
     bad = 0
     for clause, ok, exp, obs in res:
         if not ok:
@@ -347,6 +357,10 @@ def gen_inputs(ctx, n):
         p0, p1 = gen_pairs(rng, m, k)
         for which in ('torch', 'numpy', 'batch_of_rays'):
             out.append(('two_points', {'api': which, 'p0': p0, 'p1': p1}, 'two_points/%s/m%d' % (which, min(m, 2))))
+        # batch_of_rays: the documented broadcast shapes (one entry / one exit point for n rays), as [3] or [1 x 3]
+        q0, q1 = gen_pairs(rng, rng.choice([2, 3, 6]), k)
+        out.append(('two_points', {'api': 'batch_of_rays', 'p0': q0[:1], 'p1': q1, 'flat': bool(k % 2)}, 'two_points/batch_of_rays/one_entry'))
+        out.append(('two_points', {'api': 'batch_of_rays', 'p0': q0, 'p1': q1[:1], 'flat': bool(k % 2)}, 'two_points/batch_of_rays/one_exit'))
         mm, nn = rng.randint(1, 5), rng.randint(1, 5)
         s, _ = gen_pairs(rng, mm, k); e, _ = gen_pairs(rng, nn, k + 1)
         if k % 5 == 0: e[0] = list(s[0])
@@ -401,6 +415,8 @@ def correspondence(ctx):
         terms.append('idx3 %d %d %d' % (n0, n1, n2)); meta.append(('idx3', n0, n1, n2))
         per = rng.randint(1, 4)
         terms.append('lum_origin_index %d %d %d' % (n0, n1, per)); meta.append(('lum', n0, n1, per))
+        c0, c1 = rng.randint(1, 7), rng.randint(1, 14)
+        terms.append('cu_counts %d %d' % (c0, c1)); meta.append(('cu', c0, c1))
         # rational axis coordinates, untilted, exact inputs (floats are dyadic rationals)
         g0, g1 = max(n0, 2), max(n1, 2)
         sx, sy, sz = [float(np.float32(gen_size(rng))) for _ in range(3)]
@@ -454,6 +470,18 @@ def correspondence(ctx):
                     dd = (e[j].astype(float) - s[i].astype(float)); dd /= np.linalg.norm(dd)
                     ok = ok and bool(np.array_equal(ray[r, 0], s[i].astype(float))) and float(np.max(np.abs(ray[r, 1] - dd))) <= 10 * TOL32
             ctx.case('B2/idx2', m)
+        elif m[0] == 'cu':
+            _, c0, c1 = m
+            rings = parse_zlist(v)
+            cen, ang, rad = gen_centre(rng, 5), gen_tilt(rng, 4), gen_size(rng)
+            pts = to_np(nt.circular_uniform_sample(no=[c0, c1], radius=rad, center=list(cen), angles=list(ang)))
+            ok = len(rings) == c0 and len(pts) == sum(rings)
+            if ok and len(pts):
+                # the implementation's rows are ring after ring, ring i at radius i/no0 * radius with the model's number of points
+                rr = np.linalg.norm(rel(pts.reshape(-1, 3), cen, ang)[:, :2], axis=1)
+                exp = np.array([i / c0 * rad for i in range(c0) for _ in range(rings[i])])
+                ok = float(np.max(np.abs(rr - exp))) <= 100 * TOL64 * scale_of(cen, [rad])
+            ctx.case('B2/cu_counts', m)
         elif m[0] == 'idx3':
             _, n0, n1, n2 = m
             order = parse_tuples(v, 3)
@@ -534,6 +562,11 @@ def self_check(ctx, g):
         b2 = b.copy(); b2[0] = a[0]
         rt2 = lr.create_ray_from_two_points(torch.tensor(a, dtype=torch.float32), torch.tensor(b2[:2], dtype=torch.float32)).numpy()
         r12 = nr.create_ray_from_two_points(a[0], b2[0])
+        rb1 = nt.batch_of_rays(a[0].copy(), b[:2].copy()); rbn = nt.batch_of_rays(a.copy(), b[0].copy())
+        for k in range(3):
+            for i in range(2):
+                cmp('n_bat1n_o_%d_%d' % (i, k), env, rb1[i, 0, k], 1e-9, 1e-12); cmp('n_bat1n_d_%d_%d' % (i, k), env, rb1[i, 1, k], 1e-9, 1e-12)
+                cmp('n_batn1_o_%d_%d' % (i, k), env, rbn[i, 0, k], 1e-9, 1e-12); cmp('n_batn1_d_%d_%d' % (i, k), env, rbn[i, 1, k], 1e-9, 1e-12)
         for name, real in (('t_two_guard_0', rt2[0, 1]), ('n_two_guard', r12[1]), ('t_two_guard_1', rt2[1, 1])):
             n += 1
             if bool(g.evalf(name, env2)) != bool(np.all(np.isnan(real))): bad += 1; ctx.log('self-check guard mismatch', name)
@@ -568,6 +601,22 @@ def self_check(ctx, g):
         pg = nt.grid_sample(recipe.GRID_NO, s3[:2], list(cen), list(ang)); pb = nt.box_volume_sample(recipe.BOX_NO, list(s3), list(cen), list(ang))
         pcirc = nt.circular_sample(recipe.CIRC_NO, rad, list(cen), list(ang)); ps = nt.sphere_sample(recipe.SPH_NO, rad, list(cen)); pu = nt.sphere_sample_uniform([2, 2], rad, list(cen))
         ptg = lt.grid_sample(recipe.GRID_NO, s3[:2], list(cen), list(ang))[0].numpy()
+        pcu = nt.circular_uniform_sample(recipe.CU_NO, rad, list(cen), list(ang))
+        env['u_0'], env['u_1'], env['v_0'], env['v_1'] = u[0], u[1], v[0], v[1]
+        draws = [np.array(u[:2]), 2 * np.pi * np.array(v[:2])]
+        old_uniform = np.random.uniform
+        np.random.uniform = lambda lo, hi, size: draws.pop(0)
+        try:
+            pcur = nt.circular_uniform_random_sample(recipe.CUR_NO, rad, list(cen), list(ang))
+        finally:
+            np.random.uniform = old_uniform
+        n += 1
+        if pcu.shape != (4, 3) or pcur.shape != (4, 3) or bool(g.evalf('n_cu0_pc', env)) != zero or bool(g.evalf('n_cur0_pc', env)) != zero:
+            bad += 1; ctx.log('self-check circular_uniform shape / path mismatch', pcu.shape, pcur.shape)
+        else:
+            for k in range(3):
+                for r in range(4):
+                    cmp('n_cu%s_%d_%d' % (tag, r, k), env, pcu[r, k], 1e-9, 1e-10 * sc); cmp('n_cur%s_%d_%d' % (tag, r, k), env, pcur[r, k], 1e-9, 1e-10 * sc)
         for k in range(3):
             for r in range(6):
                 cmp('n_grid%s_%d_%d' % (tag, r, k), env, pg[r, k], 1e-9, 1e-10 * sc); cmp('n_sph_%d_%d' % (r, k), env, ps[r, k], 1e-9, 1e-10 * sc)
@@ -591,7 +640,8 @@ def run(ctx):
                     'float rounding not modelled (oracle tolerances: float32 %g, float64 %g relative, cosine %g)' % (TOL32, TOL64, COS_TOL32),
                     'torch.rand returns values in [0, 1) (the theorems assume 0 <= U <= 1); the RNG itself is exercised through seeds only',
                     'B1 covers lattices of the traced sizes (2x3, 2x2x2, 2x2; 2x2 lights x 2 rays) for all reals; other counts by the model theorems + B2 + oracles',
-                    'circular_uniform_sample / circular_uniform_random_sample (python loops, global NumPy RNG) are observed by the oracles only']
+                    'circular_uniform_sample / circular_uniform_random_sample: B1 at the traced sizes ([2,8]: ring 1 with 4 points; 2 radii x 2 angles with symbolic draws), '
+                    'np.random.uniform(lo, hi, n) modelled as lo + (hi - lo) * draws in [0, 1]; other counts by the model theorems + B2 (ring occupancy) + oracles']
     ctx.assumptions += ['grid lattices need at least 2 points per axis to span a size (theorem hypothesis); limits 0..180 deg; sizes and radii >= 0']
     ctx.gate()
     ctx.ensure_theories(['theories/C14/Props.vo'])
@@ -607,7 +657,7 @@ def run(ctx):
         ctx.obligation('translator:trace', False, repr(e))
     if g is not None:
         ctx.log('traced %d definitions' % len(g.defs))
-        ctx.compile_tie('GenC14', g.text(), [['C14_TieA', 'C14_TieB1', 'C14_TieB2', 'C14_TieC1', 'C14_TieC2']], timeout=900)
+        ctx.compile_tie('GenC14', g.text(), [['C14_TieA', 'C14_TieB1', 'C14_TieB2', 'C14_TieC1', 'C14_TieC2', 'C14_TieC3']], timeout=900)
         ctx.log('tie files compiled')
         try:
             self_check(ctx, g)
@@ -617,7 +667,10 @@ def run(ctx):
         ctx.sample({'traced_definition': 't_pl_d_0_2', 'coq': shim.coq(g.by_name['t_pl_d_0_2'][1])[:500]})
     # B2
     ctx.log('self-check done')
-    correspondence(ctx)
+    try:
+        correspondence(ctx)
+    except Exception as e:                      # the implementation raised inside a correspondence case: the oracles below give the input
+        ctx.obligation('correspondence:lattice-order-and-axis-coordinates', False, 'implementation raised %r' % (e,))
     ctx.log('correspondence done')
     # direct oracles
     for name, inp, cat in gen_inputs(ctx, 1200 if ctx.thorough else 40):
@@ -641,7 +694,7 @@ def replay(ctx, rec):
     try:
         res = ORACLES[name](inp)
     except Exception as e:
-        res = [('no_exception', False, 'a result', repr(e))]
+        res = [('no_exception[%s]' % type(e).__name__, False, 'a result', repr(e))]
     for r in res:
         print(('FAIL ' if not r[1] else 'ok   ') + r[0], '' if r[1] else 'expected=%s observed=%s' % (r[2], r[3]))
     return 1 if [r for r in res if not r[1]] else 0
